@@ -519,6 +519,103 @@ func checkC11(c *Ctx) {
 		}
 	}
 
+	// ---- C11.11 no unbounded recursion on the externally reachable paths: a function that calls itself does so on a path
+	// that makes progress. The one self-call of today's tree is the fallback of DecoyRegistration.String() when
+	// json.Marshal of its digest fails - reviewed: it is unreachable as long as every field of the digest has a type
+	// whose JSON encoding cannot fail; the rule checks exactly that (a field with a fallible MarshalText / MarshalJSON,
+	// e.g. a net.IP taken from the message, turns one registration into a stack overflow of the station)
+	r.Rule("C11.11", "no self-recursion on externally reachable paths (the reviewed Marshal fallback stays unreachable)", 1)
+	{
+		okTypes := map[string]bool{"string": true, "uint32": true, "uint": true, "uint64": true, "int": true, "bool": true, "time.Time": true,
+			"*proto.RegistrationFlags": true, "proto.TransportType": true, "*proto.RegistrationSource": true, "proto.IPProto": true, "uint16": true}
+		nSelf := 0
+		for _, f := range order {
+			eachInstr(f, func(in ssa.Instruction) {
+				ci, ok := in.(ssa.CallInstruction)
+				if !ok || ci.Common().StaticCallee() != f {
+					return
+				}
+				nSelf++
+				key := fnName(f) + ": calls itself"
+				// the reviewed shape: under err != nil of json.Marshal(x) where every field of x is infallible
+				var m *ssa.Call
+				eachInstr(f, func(in2 ssa.Instruction) {
+					if c2, ok := in2.(*ssa.Call); ok && calleeName(&c2.Call) == "encoding/json.Marshal" {
+						m = c2
+					}
+				})
+				reviewed := false
+				bad := ""
+				if m != nil && guarded(f, in, errAtoms(m, false)...) {
+					reviewed = true
+					t := stripConv(m.Call.Args[0]).Type()
+					if pt, ok := t.Underlying().(*types.Pointer); ok {
+						t = pt.Elem()
+					}
+					if st, ok := t.Underlying().(*types.Struct); ok {
+						for i := 0; i < st.NumFields(); i++ {
+							if ts := typeShort(st.Field(i).Type()); !okTypes[ts] {
+								reviewed, bad = false, st.Field(i).Name()+" "+ts
+							}
+						}
+					} else {
+						reviewed = false
+					}
+				}
+				if reviewed {
+					r.OK("C11.11", key+" (reviewed)", in.Pos(), "only when json.Marshal of a struct of infallible field types fails, which cannot happen")
+				} else {
+					r.Bad("C11.11", key, in.Pos(), fnName(f), "reachable from an external input entry point: the function calls itself with the same arguments on a path that external input can select ("+bad+" can make the encoding fail): unbounded recursion, fatal stack overflow - no recover catches it", seen[f]...)
+				}
+			})
+		}
+		if nSelf == 0 {
+			r.OK("C11.11", "no function on the externally reachable paths calls itself", token.NoPos, fmt.Sprintf("%d functions scanned", len(order)))
+		}
+	}
+	// ---- C11.12 the DTLS listener's certificate table is read by the handshake callbacks without nil tests: every pair
+	// put into it has both certificates
+	r.Rule("C11.12", "every certificate pair stored in the listener's table has both certificates set", 1)
+	{
+		n := 0
+		for _, f := range c.funcsOfPkgs("pkg/dtls") {
+			for _, ff := range withAnon(f) {
+				eachInstr(ff, func(in ssa.Instruction) {
+					mu, ok := in.(*ssa.MapUpdate)
+					if !ok || !strings.HasSuffix(pathOf(mu.Map), ".connToCert") {
+						return
+					}
+					n++
+					v := stripConv(mu.Value)
+					if _, isParam := v.(*ssa.Parameter); isParam {
+						// handed in whole: the caller built it (checked where it is built)
+						v2 := v.(*ssa.Parameter)
+						sites, _ := callersOf(ff)
+						okAll := len(sites) > 0
+						for _, sc := range sites {
+							idx := -1
+							for i, p := range ff.Params {
+								if p == v2 {
+									idx = i
+								}
+							}
+							if idx < 0 || idx >= len(sc.Call.Args) || !fullCertPair(sc.Parent(), sc.Call.Args[idx]) {
+								okAll = false
+							}
+						}
+						r.Check(okAll, "C11.12", fnName(ff)+": the pair stored in connToCert has both certificates", in.Pos(), fnName(ff), "built by every caller with clientCert and serverCert", "a certificate pair with a missing certificate is stored in the listener's table")
+						return
+					}
+					r.Check(fullCertPair(ff, v), "C11.12", fnName(ff)+": the pair stored in connToCert has both certificates", in.Pos(), fnName(ff), "clientCert and serverCert are both set",
+						"a certificate pair with a missing certificate is stored in the table the handshake callbacks read: a peer whose hello-random finds it makes verifyConnection / the certificate callback dereference nil inside the DTLS library's goroutine, which nothing recovers - one well-formed handshake from a stranger takes the station down")
+				})
+			}
+		}
+		if n == 0 {
+			r.Unk("C11.12", "stores into Listener.connToCert", token.NoPos, "", "none found")
+		}
+	}
+
 	// ---- C11.5 constant-bound slicing / indexing and allocation sizes on the same reachable set
 	r.Rule("C11.5", "constant-bound slices/indexes of dynamically sized values are dominated by a length test; allocation sizes come from in-memory lengths or are bounded", 10)
 	for _, f := range order {
@@ -1021,4 +1118,26 @@ func panicConstruct(in ssa.Instruction) string {
 		}
 	}
 	return ""
+}
+
+// fullCertPair: v is a certPair allocated in f whose clientCert and serverCert fields are both stored.
+func fullCertPair(f *ssa.Function, v ssa.Value) bool {
+	al, ok := stripConv(v).(*ssa.Alloc)
+	if !ok || al.Referrers() == nil {
+		return false
+	}
+	got := map[string]bool{}
+	for _, ref := range *al.Referrers() {
+		if fa, ok := ref.(*ssa.FieldAddr); ok && fa.Referrers() != nil {
+			for _, r2 := range *fa.Referrers() {
+				if st, ok := r2.(*ssa.Store); ok && st.Addr == ssa.Value(fa) {
+					if cst, isC := st.Val.(*ssa.Const); isC && cst.Value == nil {
+						continue
+					}
+					got[fieldName(fa.X.Type(), fa.Field)] = true
+				}
+			}
+		}
+	}
+	return got["clientCert"] && got["serverCert"]
 }
